@@ -8,7 +8,7 @@ open TdModel TdModel.C31
 * `final <path> <newhex> <ents> <op>…` → one token for the final state
 * `shape <path> <newhex> <ents> <op>…` → the five flags only
 * `abort <fd> <dfd> <tmp> <path> <chunkhex,…> <k>` → predicted trace when the k-th call fails
-* `segments <path> <new0,new1,…> <ents> <op>…` → per save of a multi-save trace which content it durably replaces (`x` = none)
+* `segments <path> <new0,new1,…> <ents> <op>…` → per save of a multi-save trace which content it atomically replaces (`x` = none)
 `<newhex>` may be a comma-separated list of acceptable new contents (classes `new`, `new1`, …)
 * `plreads <idx> <path> <newhex> <ents> <op>…` → the distinct power-loss contents of `path` in crash state `idx`
 * `impl <fd> <dfd> <tmp> <path> <chunkhex,…>` → the trace predicted from the regenerated call list
@@ -141,9 +141,10 @@ def handle (line : String) : String :=
   | "segments" :: rest =>
     match parseReq rest with
     | some q =>
-      -- replay save after save: each segment must be a durable atomic replacement of one of the contents
+      -- replay save after save: each segment must be an atomic replacement of one of the contents
+      -- (durability of completed saves is checked on the power-loss classes by the harness)
       let step := fun (acc : FS × List String) (seg : List Op) =>
-        let k := q.news.findIdx? fun n => isDurableReplace seg q.path n && freshTmp seg acc.1
+        let k := q.news.findIdx? fun n => isAtomicReplace seg q.path n && freshTmp seg acc.1
         (run seg acc.1, acc.2 ++ [match k with
           | some k => newTag k
           | none => "x"])
